@@ -42,9 +42,9 @@ ASSUMPTIONS = [
     "an access to an abstract location is atomic in the model; weak-memory effects of unsynchronised accesses are outside (they are exactly what race-freedom excludes)",
     "sync.Once is atomic for its callers; sync.RWMutex: any number of Shared holders or one Excl holder, not re-entrant",
     "no renegotiation on the shared connection (default RenegotiateNever)",
-    "package variables sm4.IV and x509.ContentEncryptionAlgorithm are not written while other goroutines use the packages",
+    "exported package variables are caller-synchronised: x509.ContentEncryptionAlgorithm (no setter; PKCS7Encrypt / PKCS7EncryptSM2 read it once per call) and a direct assignment `sm4.IV = ...` are not performed while other goroutines use the packages (row x509_set_cea is outside the claim, theorem package_state_writers; scenario pkcs7_cea changes the selector between concurrent phases only).  The library call sm4.SetIV may run at any time since /repo 0fa6cb9; the slice handed to it must not be changed afterwards",
 ]
-RULE = ("fixed scenario plan (13 shared-object scenarios incl. first use of a fresh cipher.Block, first use of the curve, first use of a CertPool with AKI-miss/name-hit chains, first use of a Config against key rotation with a ticket-under-rotated-key observation) x goroutine counts {2,8,32} (thorough: {2,3/4,8,16,32}, more iterations); each scenario runs in a fresh process; every "
+RULE = ("fixed scenario plan (23 scenarios: 15 shared-object scenarios, the alert branches of one connection, and package-level state / operations - SM4 helpers with the IV changed between phases and by a concurrent SetIV, GCM helpers on one key, PKCS#7 encryption under both content-encryption settings (changed between concurrent phases), SM2 key exchange with shared long-term keys, PKCS#12 encode / decode of shared objects; GOMAXPROCS 2, 4 or all processors per scenario - the shared-object scenarios incl. first use of a fresh cipher.Block, first use of the curve, first use of a CertPool with AKI-miss/name-hit chains, first use of a Config against key rotation with a ticket-under-rotated-key observation) x goroutine counts {2,8,32} (thorough: {2,3/4,8,16,32}, more iterations); each scenario runs in a fresh process; every "
         "call's result (digest of all outputs for deterministic per-goroutine nonce streams, verdicts, parsed fields, echoed/delivered bytes) is compared "
         "with the single-threaded result of the same call; the same plan and the corpus run again in a -race build; a case is non-trivial when it "
         "uses >= 2 goroutines; distinct = distinct (scenario, goroutines, iterations, seed)")
@@ -80,6 +80,46 @@ def _frames(report):
         if m:
             out.append("%s %s (%s)" % (sect.strip().split(" at ")[0].lower(), m.group(1).replace("github.com/tjfoc/gmsm/", ""), m.group(2)))
     return " / ".join(out[:2])
+
+
+def _race_tops(report):
+    """for every race of the report: the top frame (function name, module prefix removed) of its two stacks"""
+    res = []
+    for blk in report.split("WARNING: DATA RACE")[1:]:
+        tops = []
+        for sect in re.split(r"\n(?=(?:Read|Write|Previous read|Previous write|Atomic read|Atomic write|Previous atomic \w+) at )", blk):
+            if not re.match(r"^\s*(Read|Write|Previous|Atomic)", sect):
+                continue
+            m = re.search(r"^\s+(\S+)\(\)\s*\n\s+\S+:\d+", sect, re.M)
+            tops.append(m.group(1).replace("github.com/tjfoc/gmsm/", "") if m else "?")
+        res.append(tuple(tops[:2]))
+    return res
+
+
+def _races_within(report, scenario, want_scenario, writer, others):
+    """every race of the report has the unsynchronised writer on one side and the writer or one of `others` on the other"""
+    tops = _race_tops(report)
+    if scenario != want_scenario or not tops:
+        return False
+    for t in tops:
+        if len(t) != 2 or not any(re.fullmatch(writer, x) for x in t):
+            return False
+        if not all(re.fullmatch(writer, x) or x in others for x in t):
+            return False
+    return True
+
+
+# Findings that only the race-detector leg can see (the functional results are those of a sequential order):
+# slug -> matcher(scenario, report).  Listed in KNOWN_FINDINGS.txt -> the matching race reports are not violations (the
+# framework prints KNOWN-FINDING for STATIC_FINDINGS); anything else in the same scenario still is.  Empty at present:
+# D51 (sm4.SetIV against the helpers) was repaired in /repo 0fa6cb9 and scenario sm4_iv_set must be race-free.
+RACE_FINDINGS = {}
+STATIC_FINDINGS = tuple(RACE_FINDINGS)
+
+
+def _listed_findings():
+    import verif
+    return {e.get("id") for e in verif.known_findings()["finding"] if e["property"] == "C20"}
 
 
 def extra(tier, seed, wd, sh, GOENV):
@@ -130,6 +170,7 @@ def extra(tier, seed, wd, sh, GOENV):
         rc, out = sh([exe, "gen", str(seed + 1000 * k), tier, c, o], env=e, timeout=2700)
         batches.append((c, o, rc, out))
     stats = {"scenarios": 0, "races": 0}
+    listed = _listed_findings()
     for cp, op, rc, out in batches:
         if rc != 0 or not os.path.exists(op):
             problems.append(("unproved", "race-detector run failed on " + os.path.basename(cp),
@@ -160,7 +201,9 @@ def extra(tier, seed, wd, sh, GOENV):
             rpath = "%s.report.%s.txt" % (op, f[1])
             if os.path.exists(rpath):
                 report = open(rpath, errors="replace").read()
-            if races > 0:
+            if races > 0 and any(fid in listed and fn(f[2], report) for fid, fn in RACE_FINDINGS.items()):
+                stats["known"] = stats.get("known", 0) + 1
+            elif races > 0:
                 stats["races"] += 1
                 problems.append(("input",
                                  "DATA RACE reported by the Go race detector in scenario %s (%s goroutines) on operations the access table calls race-free: %s"
@@ -175,5 +218,6 @@ def extra(tier, seed, wd, sh, GOENV):
                                   "rerun": "cd /verif/harness && ./bin/c20race one " + line, "race_report": report[:6000]}))
     with open(os.path.join(wd, "race_summary.json"), "w") as fh:
         json.dump(stats, fh)
-    print("C20 race-detector leg: %d scenario runs, %d with race reports" % (stats["scenarios"], stats["races"]), flush=True)
+    print("C20 race-detector leg: %d scenario runs, %d with race reports%s" % (stats["scenarios"], stats["races"],
+          (" (+%d matching listed findings)" % stats["known"]) if stats.get("known") else ""), flush=True)
     return problems
